@@ -13,7 +13,7 @@ from scipy.sparse import csr_array
 from common import coq_eval, parse_ints, try_coq
 from solvers import solve_with_batch, COMBOS, Prepared, dense_design, expanded_basis, forces_from_fc, solver_cells
 
-UNITS = ["ReshapeGen", "SolverStruct", "BatchGen", "DesignGen"]
+UNITS = ["ReshapeGen", "SolverStruct", "BatchGen", "DesignGen", "ShapesSolvers"]
 PROPS = ["props/C05.v"]
 ASSUMPTIONS = ["conditioning and rounding are outside the theorems: recovery is checked to 1e-6 relative on designs with condition number < 1e8",
                "sparse/dense products are exact real products in the model"]
@@ -175,6 +175,24 @@ def check(ctx):
                             if not err <= 1e-6:
                                 ctx.fail("oracle", f"C05/oracle/recovery/order{m}", f"{P.sc['name']} orders {orders} compact={compact} batch_size={bs} atom_batches={nb}: fc{m} not recovered (relative error {err:.2e})",
                                          replay={**P.describe(), "orders": list(orders), "compact": compact, "batch_size": bs, "atom_batches": nb, "disps": d.tolist(), "truth_coefs": "random on expanded basis", "rel_err": err}, has_input=True)
+
+            # the Taylor model is exact for displacements of ANY size: displacements of the order of the cell (several Angstrom,
+            # fractional components beyond 1/2) and the same forces model must be recovered as well (through the facade)
+            d_big = rng.normal(size=(n, P.N, 3)) * 2.5
+            f_big = forces_from_fc(truth, d_big)
+            ctx.case({"cell": P.sc["name"], "orders": list(orders), "large_amplitude": 2.5, "n_snap": n}, nontrivial=True)
+            ctx.count("recovery-large-amplitude")
+            try:
+                o = P.new(d_big, f_big)
+                o.solve(orders=list(orders), is_compact_fc=False)
+                errs = {m: float(np.abs(o.force_constants[m] - truth[m]).max() / max(np.abs(truth[m]).max(), 1e-300)) for m in orders}
+            except np.linalg.LinAlgError:
+                errs = {}
+                ctx.count("skipped-singular")
+            bad_m = [m for m, e in errs.items() if not e <= 1e-6]
+            if bad_m:
+                ctx.fail("oracle", f"C05/oracle/recovery-large-amplitude/order{bad_m[0]}", f"{P.sc['name']} orders {orders}: displacements of 2.5 length units (Taylor model exact for any size): fc{bad_m[0]} not recovered (relative error {errs[bad_m[0]]:.2e})",
+                         replay={**P.describe(), "orders": list(orders), "disps": d_big.tolist(), "rel_err": errs[bad_m[0]]}, has_input=True)
 
     # ---- ground truths drawn from the INDEPENDENT reference admissible space (reference.py), small cells
     import spglib
